@@ -50,6 +50,7 @@ type basicTaskBase struct {
 	taskCmd                 *exec.Cmd
 	transitioner            transitioner.Transitioner
 	pendingFinalTaskStateCh chan mesos.TaskState
+	runningTimer            *time.Timer
 }
 
 func (t *basicTaskBase) startBasicTask() (err error) {
@@ -285,7 +286,7 @@ func (t *basicTaskBase) doLaunch(transitionFunc transitioner.DoTransitionFunc) e
 		WithField("level", infologger.IL_Devel).
 		Debug("basic task staged")
 
-	time.AfterFunc(200*time.Millisecond, func() { t.sendStatus(t.knownEnvironmentId, mesos.TASK_RUNNING, "") })
+	t.runningTimer = time.AfterFunc(200*time.Millisecond, func() { t.sendStatus(t.knownEnvironmentId, mesos.TASK_RUNNING, "") })
 
 	return nil
 }
@@ -311,6 +312,9 @@ func (t *basicTaskBase) Transition(cmd *executorcmd.ExecutorCommand_Transition) 
 func (t *basicTaskBase) Kill() error {
 	if t.taskCmd != nil {
 		t.taskCmd = nil
+	}
+	if t.runningTimer != nil {
+		t.runningTimer.Stop()
 	}
 
 	go t.sendStatus(t.knownEnvironmentId, mesos.TASK_FINISHED, "")
